@@ -335,8 +335,13 @@ func runSim(s *spec, tier string, seed uint64, scratch string) int {
 		die(2, "no runs executed")
 	}
 
-	// replay files
+	// replay files (those of earlier runs of this property are replaced)
 	os.MkdirAll(filepath.Join(verif, "replays"), 0755)
+	if old, _ := filepath.Glob(filepath.Join(verif, "replays", s.Prop+"-*.json")); len(old) > 0 {
+		for _, f := range old {
+			os.Remove(f)
+		}
+	}
 	var vlines []string
 	for _, p := range agg.Violations {
 		dst := filepath.Join(verif, "replays", s.Prop+"-"+filepath.Base(p))
